@@ -1826,3 +1826,355 @@ func (c *Check) unitFromDisplayedNodeValues() {
 		c.ok("C15-R12", "displayed-values", p.relFile(f.Pos()), "the output unit is chosen from the values as displayed", fmt.Sprintf("no direct read of Node.Flat/Node.Cum in selectOutputUnit and its %d helper(s) in package report", n-1))
 	}
 }
+
+// searchNamesAlignedWithSources (C17-R11): the client indexes the list of names served with
+// the stack view by source number.  When the list is grown inside a loop (append per source),
+// no path through an iteration skips the append: a list with an entry left out (a duplicate
+// name, say) is shorter than Sources and every later index names the wrong function or none.
+func (c *Check) searchNamesAlignedWithSources() {
+	p := c.P
+	f := c.anchorFn("C17-R11", "internal/driver", "(*webInterface).stackView")
+	if f == nil {
+		return
+	}
+	n := 0
+	for _, b := range f.Blocks {
+		for _, ins := range b.Instrs {
+			st, ok := ins.(*ssa.Store)
+			if !ok {
+				continue
+			}
+			fa, ok := st.Addr.(*ssa.FieldAddr)
+			if !ok {
+				continue
+			}
+			if T, F := fieldOf(fa.X.Type(), fa.Field); T != "driver.webArgs" || F != "Nodes" {
+				continue
+			}
+			n++
+			// the appends that build the stored list
+			var appends []*ssa.Call
+			seen := map[ssa.Value]bool{}
+			var back func(v ssa.Value, d int)
+			back = func(v ssa.Value, d int) {
+				if seen[v] || d > 12 {
+					return
+				}
+				seen[v] = true
+				switch x := v.(type) {
+				case *ssa.Phi:
+					for _, e := range x.Edges {
+						back(e, d+1)
+					}
+				case *ssa.Call:
+					if bi, ok := x.Call.Value.(*ssa.Builtin); ok && bi.Name() == "append" {
+						appends = append(appends, x)
+						back(x.Call.Args[0], d+1)
+					}
+				case *ssa.Slice:
+					back(x.X, d+1)
+				}
+			}
+			back(st.Val, 0)
+			bad := ""
+			inLoop := 0
+			for _, ap := range appends {
+				hdr := loopHeaderAround(ap.Block())
+				if hdr == nil {
+					continue
+				}
+				inLoop++
+				if iterationSkips(hdr, ap.Block(), func(ssa.Value) int { return 0 }) {
+					bad = p.relFile(ap.Pos())
+				}
+			}
+			switch {
+			case bad != "":
+				c.bad("C17-R11", "names-aligned", bad, "stackView appends a name to the list served as Nodes only on some iterations of the loop over the sources: the list is shorter than Sources, so the index of every source after the first omitted one selects another function's name (or none) in the client")
+			case inLoop > 0:
+				c.ok("C17-R11", "names-aligned", p.relFile(st.Pos()), "every iteration over the sources adds one name to the list served as Nodes", fmt.Sprintf("%d append(s) in a loop, none can be skipped by an iteration", inLoop))
+			default:
+				c.ok("C17-R11", "names-aligned", p.relFile(st.Pos()), "the list served as Nodes is not grown conditionally", "it is allocated with its final length and filled by index")
+			}
+		}
+	}
+	if n == 0 {
+		c.ok("C17-R11", "names-aligned:none", p.relFile(f.Pos()), "stackView serves no Nodes list", "nothing to check")
+	}
+}
+
+// dedupSetOutlivesList (C03-R11): "comments the de-duplicated union in order".  When
+// combineHeaders appends to a list that lives across the loop over the inputs only if a map
+// says the element is new, that map lives across the same loop: made afresh for each input it
+// removes duplicates within one profile only, and a comment shared by two inputs appears twice.
+func (c *Check) dedupSetOutlivesList() {
+	p := c.P
+	f := c.anchorFn("C03-R11", "profile", "combineHeaders")
+	if f == nil {
+		return
+	}
+	n := 0
+	for _, g := range withHelpers(f, 1) {
+		for _, b := range g.Blocks {
+			for _, ins := range b.Instrs {
+				ap, ok := ins.(*ssa.Call)
+				if !ok {
+					continue
+				}
+				if bi, ok := ap.Call.Value.(*ssa.Builtin); !ok || bi.Name() != "append" {
+					continue
+				}
+				// loop headers at which the list is carried
+				var hdrs []*ssa.BasicBlock
+				seen := map[ssa.Value]bool{}
+				var back func(v ssa.Value, d int)
+				back = func(v ssa.Value, d int) {
+					if seen[v] || d > 10 {
+						return
+					}
+					seen[v] = true
+					switch x := v.(type) {
+					case *ssa.Phi:
+						for _, pr := range x.Block().Preds {
+							if x.Block().Dominates(pr) {
+								hdrs = append(hdrs, x.Block())
+								break
+							}
+						}
+						for _, e := range x.Edges {
+							back(e, d+1)
+						}
+					case *ssa.Call:
+						if bi, ok := x.Call.Value.(*ssa.Builtin); ok && bi.Name() == "append" {
+							back(x.Call.Args[0], d+1)
+						}
+					}
+				}
+				back(ap.Call.Args[0], 0)
+				if len(hdrs) == 0 {
+					continue
+				}
+				// the map lookups that decide whether the append runs
+				for d := b; d != nil; d = d.Idom() {
+					id := d.Idom()
+					if id == nil {
+						break
+					}
+					iff, ok := id.Instrs[len(id.Instrs)-1].(*ssa.If)
+					if !ok {
+						continue
+					}
+					mk := lookupMapOf(iff.Cond, 0)
+					if mk == nil {
+						continue
+					}
+					n++
+					key := fmt.Sprintf("dedup-scope:%s#%d", fnName(g), n)
+					inner := false
+					for _, h := range hdrs {
+						if naturalLoop(h)[mk.Block()] {
+							inner = true
+						}
+					}
+					if inner {
+						c.bad("C03-R11", key, p.relFile(mk.Pos()), fnName(g)+" de-duplicates what it appends to a list shared by all inputs with a set that is made anew inside the loop over the inputs: duplicates are only removed within one profile, and a comment present in two inputs is listed twice in the merged profile")
+					} else {
+						c.ok("C03-R11", key, p.relFile(mk.Pos()), "the set that de-duplicates a merged list lives as long as the list", "the map is made outside every loop that carries the list")
+					}
+				}
+			}
+		}
+	}
+	if n == 0 {
+		c.ok("C03-R11", "dedup-scope:none", p.relFile(f.Pos()), "combineHeaders guards no append with a map lookup", "de-duplication is done otherwise")
+	}
+}
+
+// lookupMapOf: cond is (the negation of / a value extracted from) a lookup in a map made by
+// make in this function; returns that MakeMap.
+func lookupMapOf(v ssa.Value, d int) *ssa.MakeMap {
+	if d > 6 {
+		return nil
+	}
+	switch x := v.(type) {
+	case *ssa.UnOp:
+		if x.Op == token.NOT {
+			return lookupMapOf(x.X, d+1)
+		}
+	case *ssa.Extract:
+		return lookupMapOf(x.Tuple, d+1)
+	case *ssa.Lookup:
+		if mk, ok := x.X.(*ssa.MakeMap); ok {
+			return mk
+		}
+		if ph, ok := x.X.(*ssa.Phi); ok {
+			for _, e := range ph.Edges {
+				if mk, ok := e.(*ssa.MakeMap); ok {
+					return mk
+				}
+			}
+		}
+	}
+	return nil
+}
+
+// mainBinaryPinnedOnce (C03-R12): "nothing else is added".  Merge may enter a mapping in the
+// result before any sample needs it only to keep the main binary first, and only while the
+// result has no mapping yet: a direct call of the mapping interner from Merge is dominated by
+// a test that a table of the merger is empty.  Done for every input, the first mapping of a
+// later profile is added although no surviving sample refers to it, and compacting the
+// merged profile changes it.
+func (c *Check) mainBinaryPinnedOnce() {
+	p := c.P
+	f := c.anchorFn("C03-R12", "profile", "Merge")
+	if f == nil {
+		return
+	}
+	n := 0
+	for _, b := range f.Blocks {
+		for _, ins := range b.Instrs {
+			call, ok := ins.(*ssa.Call)
+			if !ok || call.Call.StaticCallee() == nil || call.Call.StaticCallee().Name() != "mapMapping" || len(call.Call.Args) == 0 {
+				continue
+			}
+			n++
+			key := fmt.Sprintf("pin-main-binary#%d", n)
+			recv := call.Call.Args[0]
+			guarded := false
+			for d := b; d != nil && !guarded; d = d.Idom() {
+				id := d.Idom()
+				if id == nil {
+					break
+				}
+				iff, ok := id.Instrs[len(id.Instrs)-1].(*ssa.If)
+				if !ok || len(d.Preds) != 1 || id.Succs[0] != d {
+					continue
+				}
+				cmp, ok := iff.Cond.(*ssa.BinOp)
+				if !ok || cmp.Op != token.EQL {
+					continue
+				}
+				if k, ok := constInt(cmp.Y); !ok || k != 0 {
+					continue
+				}
+				if x := lenArg(cmp.X); x != nil {
+					if ld, ok := x.(*ssa.UnOp); ok && ld.Op == token.MUL {
+						if fa, ok := ld.X.(*ssa.FieldAddr); ok && fa.X == recv {
+							guarded = true
+						}
+					}
+				}
+			}
+			if guarded {
+				c.ok("C03-R12", key, p.relFile(call.Pos()), "Merge pins a mapping ahead of the samples only while the result has none", "the direct call of the mapping interner is dominated by len(<table of the merger>) == 0")
+			} else {
+				c.bad("C03-R12", key, p.relFile(call.Pos()), "Merge enters a mapping in the result for every input, whether or not a surviving sample refers to it: the first mapping of a later profile whose samples all cancel (or lie in shared libraries) is added to the merged profile, which Compact then changes again")
+			}
+		}
+	}
+	if n == 0 {
+		c.ok("C03-R12", "pin-main-binary:none", p.relFile(f.Pos()), "Merge enters no mapping directly", "mappings reach the result through the locations of surviving samples only")
+	}
+}
+
+// objNamesFormats (C04-R13): the entry a frame maps to is the same in every output form that
+// lists functions.  report.newGraph keys nodes by binary (gopt.ObjNames) only for the forms
+// that print addresses or per-binary records - raw, list, weblist, disasm, callgrind; a form
+// added to that case list (topproto) splits one function into one entry per binary, with
+// flat and cum values that differ from the same entry in top or dot.
+func (c *Check) objNamesFormats() {
+	p := c.P
+	f := c.anchorFn("C04-R13", "internal/report", "(*Report).newGraph")
+	if f == nil {
+		return
+	}
+	allowed := map[string]bool{"Raw": true, "List": true, "WebList": true, "Dis": true, "Callgrind": true}
+	names := map[int64]string{}
+	if pk := p.Pkg("internal/report"); pk != nil {
+		sc := pk.Types.Scope()
+		for _, nme := range sc.Names() {
+			k, ok := sc.Lookup(nme).(*types.Const)
+			if !ok {
+				continue
+			}
+			if bt, isB := k.Type().Underlying().(*types.Basic); isB && bt.Info()&types.IsInteger != 0 {
+				// the output format constants are untyped-int iota constants of the package
+				if v, ok := constantInt64(k); ok {
+					if _, dup := names[v]; !dup || allowed[nme] {
+						names[v] = nme
+					}
+				}
+			}
+		}
+	}
+	n := 0
+	for _, b := range f.Blocks {
+		for _, ins := range b.Instrs {
+			st, ok := ins.(*ssa.Store)
+			if !ok {
+				continue
+			}
+			fa, ok := st.Addr.(*ssa.FieldAddr)
+			if !ok {
+				continue
+			}
+			if T, F := fieldOf(fa.X.Type(), fa.Field); T != "graph.Options" || F != "ObjNames" {
+				continue
+			}
+			if k, isK := st.Val.(*ssa.Const); !isK || !constBool(k) {
+				continue
+			}
+			n++
+			var extra []string
+			cases := 0
+			for _, pr := range b.Preds {
+				iff, ok := pr.Instrs[len(pr.Instrs)-1].(*ssa.If)
+				if !ok || pr.Succs[0] != b {
+					continue
+				}
+				cmp, ok := iff.Cond.(*ssa.BinOp)
+				if !ok || cmp.Op != token.EQL {
+					continue
+				}
+				k, ok := constInt(cmp.Y)
+				if !ok {
+					continue
+				}
+				if ld, ok := cmp.X.(*ssa.UnOp); ok && ld.Op == token.MUL {
+					if fa2, ok := ld.X.(*ssa.FieldAddr); ok {
+						if _, F := fieldOf(fa2.X.Type(), fa2.Field); F == "OutputFormat" {
+							cases++
+							if nm := names[k]; !allowed[nm] {
+								if nm == "" {
+									nm = fmt.Sprint(k)
+								}
+								extra = append(extra, nm)
+							}
+						}
+					}
+				}
+			}
+			sort.Strings(extra)
+			switch {
+			case len(extra) > 0:
+				c.bad("C04-R13", "objnames-formats", p.relFile(st.Pos()), "newGraph keys nodes by binary for output format "+strings.Join(extra, ", ")+" as well: that form now shows one entry per (function, binary, start line) where top, tree and dot show one per function, with different flat and cum values for the same function")
+			case cases > 0:
+				c.ok("C04-R13", "objnames-formats", p.relFile(st.Pos()), "only the address-level forms key nodes by binary", fmt.Sprintf("ObjNames is set for %d output formats, all among raw, list, weblist, disasm, callgrind", cases))
+			default:
+				c.ok("C04-R13", "objnames-formats", p.relFile(st.Pos()), "ObjNames is not set from a case list over the output format", "expressed otherwise: not decided by this rule")
+			}
+		}
+	}
+	if n == 0 {
+		c.ok("C04-R13", "objnames-formats:none", p.relFile(f.Pos()), "newGraph never sets ObjNames", "nodes are keyed alike in every form")
+	}
+}
+
+func constantInt64(k *types.Const) (int64, bool) {
+	s := k.Val().ExactString()
+	var v int64
+	if _, err := fmt.Sscan(s, &v); err != nil {
+		return 0, false
+	}
+	return v, true
+}
